@@ -324,7 +324,7 @@ def abstract_state(mol, K, MK, unit_pm):
 
 
 # ------------------------------------------------------------------ recorder
-def record_run(mol, ljson, K, MK, unit_pm, seg_len=None, with_before=True, proc=None):
+def record_run(mol, ljson, K, MK, unit_pm, seg_len=None, with_before=True, proc=None, decoy=None):
     """Run the real DoLinks.run_molecule on `mol` (its force field holds exactly the links abstracted in `ljson`).
     Returns a list of run events (one per segment of `seg_len` consecutive links)."""
     import vermouth.processors.do_links as dl
@@ -339,6 +339,9 @@ def record_run(mol, ljson, K, MK, unit_pm, seg_len=None, with_before=True, proc=
     orig_match, orig_call = dl.match_link, LinkParameterEffector.__call__
 
     def spy(molecule, link):
+        if molecule is not mol:          # the decoy molecule that shares the system (and the force field) with `mol`
+            yield from orig_match(molecule, link)
+            return
         i = index[id(link)]
         snaps_at[i] = abstract_state(molecule, K, MK, unit_pm)
         if i in starts:
@@ -359,7 +362,17 @@ def record_run(mol, ljson, K, MK, unit_pm, seg_len=None, with_before=True, proc=
     LinkParameterEffector.__call__ = tagged
     try:
         # `proc`: one processor object used for many molecules (nothing of an earlier molecule may stick to it)
-        (proc if proc is not None else dl.DoLinks()).run_molecule(mol)
+        if decoy is not None:
+            # as martinize2 does: ONE processor over a SYSTEM; `mol` comes second, after a molecule of the same force field whose
+            # molecule-level attributes differ (nothing decided for the first molecule may be reused for the second)
+            from vermouth.system import System
+            system = System(force_field=mol.force_field)
+            system.molecules = [decoy, mol]
+            (proc if proc is not None else dl.DoLinks()).run_system(system)
+            if len(system.molecules) != 2 or system.molecules[1] is not mol:
+                raise tlc.MachineryError('run_system did not keep the two molecules in place')
+        else:
+            (proc if proc is not None else dl.DoLinks()).run_molecule(mol)
     finally:
         dl.match_link = orig_match
         LinkParameterEffector.__call__ = orig_call
